@@ -106,6 +106,7 @@ type Shared struct {
 	Witnesses    map[string]*Witness
 	Inconclusive []string
 	Queries      int64
+	EvalWitness  int64 // feasibility questions answered by an evaluated witness (no query)
 	SatN, UnsatN int64
 	UnknownN     int64
 	SolverTime   float64
@@ -196,6 +197,7 @@ type explorer struct {
 	bind      map[*smt.Term]*smt.Term
 	substMemo map[*smt.Term]*smt.Term
 
+	evalWitness   int64
 	mapOrderOn    bool
 	mapOrderMax   int
 	adversMapPkgs map[string]bool
@@ -369,6 +371,7 @@ func (ex *explorer) branch(cond *smt.Term) bool {
 	var res smt.Result
 	var m map[*smt.Term]uint64
 	if gm := ex.guessOther(cond, alt); gm != nil {
+		ex.evalWitness++
 		res, m = smt.Sat, gm
 	} else {
 		res, m = ex.check(alt)
@@ -566,6 +569,7 @@ func (ex *explorer) concretize(t *smt.Term) uint64 {
 	var m map[*smt.Term]uint64
 	if gm := ex.guessOther(t, other); gm != nil {
 		// another value found by evaluation alone: a checked witness, no query needed
+		ex.evalWitness++
 		res, m = smt.Sat, gm
 	} else {
 		res, m = ex.check(other)
